@@ -35,8 +35,7 @@ func (c *Cluster) MutateNode(name string, f func(*corev1.Node)) bool {
 		return false
 	}
 	f(n)
-	c.rawUpdate(GVKNode, n)
-	return true
+	return c.rawUpdate(GVKNode, n)
 }
 
 // ---------------------------------------------------------------- pods (scheduler + kubelet)
@@ -48,8 +47,7 @@ func (c *Cluster) MutatePod(ns, name string, f func(*corev1.Pod)) bool {
 		return false
 	}
 	f(p)
-	c.rawUpdate(GVKPod, p)
-	return true
+	return c.rawUpdate(GVKPod, p)
 }
 
 // PinnedNode is the node a pod is bound or pinned to ("" if none).
@@ -398,8 +396,7 @@ func (c *Cluster) MutateERS(ns, name string, f func(*edsv1.ExtendedDaemonSetRepl
 		return false
 	}
 	f(rs)
-	c.rawUpdate(GVKERS, rs)
-	return true
+	return c.rawUpdate(GVKERS, rs)
 }
 
 // MutateEDS edits an ExtendedDaemonSet in place (raw write incl. status).
@@ -409,8 +406,7 @@ func (c *Cluster) MutateEDS(ns, name string, f func(*edsv1.ExtendedDaemonSet)) b
 		return false
 	}
 	f(e)
-	c.rawUpdate(GVKEDS, e)
-	return true
+	return c.rawUpdate(GVKEDS, e)
 }
 
 // MutateSetting edits a setting in place (raw write).
@@ -420,8 +416,7 @@ func (c *Cluster) MutateSetting(ns, name string, f func(*edsv1.ExtendedDaemonset
 		return false
 	}
 	f(s)
-	c.rawUpdate(GVKSetting, s)
-	return true
+	return c.rawUpdate(GVKSetting, s)
 }
 
 // DeleteERS removes a replica set object (user or GC).
